@@ -5,7 +5,7 @@ from vcheck import parse_edges, write_json, InfraError
 META = {
     "property_id": "C06",
     "level": "model_checking",
-    "technique": "TLA+ spec of trie.Trie (Trie.tla over MPT.tla: Yellow-Paper insert/delete with collapse, UpdateBatch with per-nibble workers) model-checked with TLC; every TLC transition and TLC-simulated behaviours replayed on trie.Trie/StackTrie against the model tree (reference Yellow-Paper encoder)",
+    "technique": "TLA+ spec of trie.Trie (Trie.tla over MPT.tla: Yellow-Paper insert/delete with collapse, UpdateBatch with per-nibble workers) model-checked with TLC; every TLC transition and TLC-simulated behaviours replayed on trie.Trie/StackTrie against the model tree (reference Yellow-Paper encoder); recorded 32-byte-key histories validated against TrieTrace.tla",
     "text": "TLC explores all histories of Update/Delete/UpdateBatch over small key universes and proves tree = Canon(kv) (hence root, lookups, ordered iteration depend only on the key-value set), including every interleaving of the concurrent per-nibble batch workers and the sequential-fallback conditions. Every transition of the state graph and sampled longer behaviours are executed on the real trie from several internal conditions (dirty, hashed, committed and reopened, detours); after each step Get over the universe, Hash (vs reference root of the model tree, vs fresh trie, vs StackTrie), NodeIterator paths / embedded-vs-hashed decision and leaf order are compared with the model.",
     "note": "Trusts TLC, triekit's reference encoder (RLP + hex-prefix + Keccak from go-ethereum/crypto) and the key embedding (model nibbles + zero padding). Goroutine schedules inside UpdateBatch are explored exhaustively in the model only; on the real code they are whatever the Go scheduler produces.",
     "design_ref": "3.2 C06",
@@ -21,6 +21,8 @@ def run(ctx):
     # MC: concurrent batches, all interleavings of the per-nibble workers
     ctx.model_check("trie/MCTrie", ctx.pick("trie/MCTrieBatchQuick", "trie/MCTrieBatchThorough"), timeout=T * 2, workers=ctx.pick(4, 8),
                     name="MCTrieBatch", coverage=ctx.thorough)
+    # MC: the streaming builder (StackTrie.tla) yields the canonical tree and emits exactly its stored nodes
+    ctx.model_check("trie/MCStackTrie", ctx.pick("trie/MCStackTrieQuick", "trie/MCStackTrie"), timeout=T, workers=4, name="MCStackTrie")
     # R: every edge of a complete graph
     res = ctx.model_check("trie/MCTrie", ctx.pick("trie/MCTrieEdges", "trie/MCTrieEdgesThorough"), tags=("EDGE",), timeout=T, workers=4, name="MCTrieEdges")
     edges = parse_edges(res)
@@ -29,6 +31,17 @@ def run(ctx):
     ep = os.path.join(ctx.scratch, "edges.json")
     write_json(ep, edges)
     ctx.drive(drv, ["-mode", "edges", "-in", ep, "-pad", 0, "-nib", "0,1,15", "-keylen", 2], name="c06-edges", timeout=T)
+    # R: every 4-entry batch over a pool of 8 operations from every state over the pool keys
+    # (concurrent mode and every fallback condition)
+    res = ctx.model_check("trie/MCTrie", "trie/MCTrieEdgesBatch", tags=("EDGE",), timeout=T, workers=4, name="MCTrieEdgesBatch")
+    bedges = parse_edges(res)
+    if not bedges:
+        raise InfraError("no batch edges emitted")
+    bp = os.path.join(ctx.scratch, "bedges.json")
+    write_json(bp, bedges)
+    del res, edges
+    ctx.drive(drv, ["-mode", "edges", "-in", bp, "-pad", 0, "-nib", "0,1,15", "-keylen", 2], name="c06-batch-edges", timeout=T)
+    del bedges
     # R: simulated behaviours with batches above/below the threshold, 2-byte and 32-byte keys
     for cfg, pad, nib, num, depth in ctx.pick([("trie/MCTrieSim", 1, "0,1,15", 25, 160)],
                                               [("trie/MCTrieSim", 1, "0,1,15", 300, 160), ("trie/MCTrieSimThorough", 61, "0,1,2,15", 200, 260)]):
@@ -41,5 +54,11 @@ def run(ctx):
         bp = os.path.join(ctx.scratch, "mbt-%d.json" % pad)
         write_json(bp, beh)
         ctx.drive(drv, ["-mode", "sim", "-in", bp, "-pad", pad, "-nib", nib, "-keylen", 3], name="c06-sim-pad%d" % pad, timeout=T)
-    return ctx.finish(rule="MC: all histories over 2-3 nibble keys with two value sizes, all worker interleavings of 4-entry batches; R: all graph edges + simulated behaviours",
+    # V: long seeded histories over 32-byte keys validated by TrieTrace.tla
+    tp = os.path.join(ctx.scratch, "trace.ndjson")
+    s, _ = ctx.drive(drv, ["-mode", "record", "-trace", tp, "-n", ctx.pick(10, 60), "-steps", ctx.pick(60, 150)], name="c06-record", timeout=T)
+    ok, consumed, total, r = ctx.validate("trie/TrieTrace", tp, ntraces=s["traces"], timeout=T * 2)
+    if not ok:
+        ctx.reject_trace("trie/TrieTrace", tp, consumed, r)
+    return ctx.finish(rule="MC: all histories over 2-3 nibble keys with two value sizes, all worker interleavings of 4-entry batches; R: all graph edges, all 4-entry batches over an 8-operation pool, simulated behaviours; V: random 32-byte-key histories",
                       assumptions=["hashes opaque and injective in the model", "real goroutine schedules of UpdateBatch not controlled"])
